@@ -535,6 +535,65 @@ func randReq(rnd *rand.Rand) absReq {
 	return r
 }
 
+// acceptingMatcher returns a matcher on name n that accepts value v ("" = label absent).
+func acceptingMatcher(rnd *rand.Rand, n, v string) aMatcher {
+	other := allVals[rnd.Intn(len(allVals))]
+	for other == v {
+		other = allVals[rnd.Intn(len(allVals))]
+	}
+	switch rnd.Intn(6) {
+	case 0:
+		return aMatcher{N: n, T: "NEQ", K: "set", Alts: []string{other}}
+	case 1:
+		return aMatcher{N: n, T: "RE", K: "set", Alts: []string{other, v}}
+	case 2:
+		return aMatcher{N: n, T: "NRE", K: "set", Alts: []string{other}}
+	case 3:
+		if v != "" {
+			return aMatcher{N: n, T: "RE", K: "nonempty", Alts: []string{}}
+		}
+		return aMatcher{N: n, T: "NRE", K: "nonempty", Alts: []string{}}
+	case 4:
+		return aMatcher{N: n, T: "RE", K: "any", Alts: []string{}}
+	default:
+		return aMatcher{N: n, T: "EQ", K: "set", Alts: []string{v}}
+	}
+}
+
+// worldReq builds a request aimed at the world: 1-3 matchers that accept one of its series as
+// the store presents it (stored labels overridden by the source's external labels), sometimes
+// with one random extra matcher, and replica labels drawn from the names in use.
+func worldReq(rnd *rand.Rand, w aWorld) absReq {
+	srcs := append([]aSource{w.Head}, w.Blocks...)
+	src := srcs[rnd.Intn(len(srcs))]
+	r := absReq{Ms: []aMatcher{}, Rl: []string{}}
+	if len(src.Series) == 0 {
+		return randReq(rnd)
+	}
+	sr := src.Series[rnd.Intn(len(src.Series))]
+	eff := map[string]string{}
+	for _, p := range sr.L {
+		eff[p[0]] = p[1]
+	}
+	for _, p := range src.Ext {
+		eff[p[0]] = p[1]
+	}
+	n := 1 + rnd.Intn(3)
+	for i := 0; i < n; i++ {
+		nm := allNames[rnd.Intn(len(allNames))]
+		r.Ms = append(r.Ms, acceptingMatcher(rnd, nm, eff[nm]))
+	}
+	if rnd.Intn(4) == 0 {
+		r.Ms = append(r.Ms, randMatcher(rnd))
+	}
+	for _, nm := range allNames[1:] {
+		if rnd.Intn(4) == 0 {
+			r.Rl = append(r.Rl, nm)
+		}
+	}
+	return r
+}
+
 // timeRange picks a seeded request range: everything, one slot's chunk, or boundary points
 // around a chunk (just before / on / just after its first and last sample).
 func timeRange(rnd *rand.Rand) (int64, int64) {
@@ -603,7 +662,11 @@ func genWorldCases(t testing.TB, rnd *rand.Rand, nWorldsTLC, nWorldsRand, reqsTL
 			}
 		}
 		for i := 0; i < reqsRand; i++ {
-			reqs = append(reqs, randReq(rnd))
+			if i%4 == 0 {
+				reqs = append(reqs, randReq(rnd))
+			} else {
+				reqs = append(reqs, worldReq(rnd, w))
+			}
 		}
 		for _, ar := range reqs {
 			yield(vt.Case{"world": w, "req": concretiseReq(rnd, ar), "cfg": cfg(rnd)})
